@@ -5,7 +5,8 @@ A case is  {'script': [[outcome, mode], ...], 'ka': bool, 'batches': [[stim, ...
   outcome 'ok' | 'fail';  mode 'd' (deferred: `_create_connection` awaits until a `resolve` stimulus)
                                | 'i' (inline: `_create_connection` returns / raises without suspending)
   stim:  ['start'] | ['resolve'] | ['cancel', k] | ['lose', c] | ['goaway', c] | ['kaclose'] |
-         ['close'] | ['pause', c] | ['resume', c] | ['answer', k]
+         ['close'] | ['pause', c] | ['resume', c] | ['answer', k] |
+         ['hold', c]  (from now on c's transport withholds connection_lost after close(); only `lose` delivers it)
 All stimuli of one batch are applied back to back WITHOUT running the loop; then the loop runs until
 no callback is ready (virtual time does not advance, except inside `kaclose`, which advances it by
 keepalive_time + keepalive_timeout so that the real keepalive timer of every open connection fires with a
@@ -21,6 +22,22 @@ from harness import wire, peer as P
 from harness.svc import exc_name
 
 KA_TIME, KA_TIMEOUT = 10.0, 5.0
+
+
+class HoldTransport(wire.MemTransport):
+    """MemTransport that can withhold connection_lost after close(), like a selector transport whose write
+    buffer towards a dead peer is never flushed: `hold = True` -> close() marks the transport closing but does
+    not schedule connection_lost; it is delivered only by lose()."""
+    hold = False
+
+    def close(self):
+        if self.closing:
+            return
+        if not self.hold:
+            return super().close()
+        self.closing = True
+        if self.on_close is not None:
+            self.on_close()
 
 
 class CmdClientEnd(wire.ClientEnd):
@@ -45,7 +62,7 @@ class CmdClientEnd(wire.ClientEnd):
     def _make(self):
         proto = self.channel._protocol_factory()
         peer = P.Peer(client_side=False)
-        tr = wire.MemTransport(proto, self.loop, on_write=peer.receive)
+        tr = HoldTransport(proto, self.loop, on_write=peer.receive)
         peer.attach(tr)
         peer.start()
         proto.connection_made(tr)
@@ -194,13 +211,15 @@ class Runner:
             self.inflight_at_close.append((bi, unfinished, self.stages(),
                                           {'creates': ce.connects, 'fails': len(ce.failed_owners)}))
             ce.channel.close()
-        elif op in ('lose', 'goaway', 'pause', 'resume'):
+        elif op in ('lose', 'goaway', 'pause', 'resume', 'hold'):
             c = st[1]
             if c >= len(ce.conns):
                 return
             proto, tr, peer = ce.conns[c]
             if op == 'lose':
                 tr.lose()
+            elif op == 'hold':
+                tr.hold = True
             elif op == 'goaway':
                 # asyncio delivers no data once the transport is closing
                 if not tr.closing and not tr.lost:
